@@ -640,9 +640,74 @@ impl<'a> Explorer<'a> {
 
 pub fn run_c14(ctx: &Ctx, st: &mut Local) {
     let s = ctx.cur;
-    let inp = Inputs::build(s);
-    // sequential expectation (in this process, this thread)
-    let seq: Vec<u64> = (0..NCALLS).map(|id| call(s, id, &inp)).collect();
+    static INP: std::sync::OnceLock<Inputs> = std::sync::OnceLock::new();
+    let inp_shared: &Inputs = INP.get_or_init(|| Inputs::build(s));
+    let inp = Inputs { blobs: inp_shared.blobs.clone() };
+    // sequential expectation (in this process, one thread)
+    // computed once per process, by one worker while the others wait: no two workers are inside the library before the
+    // first engine starts (a deadlock between concurrent calls must surface inside a case, where it can be attributed)
+    static SEQ: std::sync::OnceLock<Vec<u64>> = std::sync::OnceLock::new();
+    let seq: Vec<u64> = SEQ.get_or_init(|| (0..NCALLS).map(|id| call(s, id, &inp)).collect()).clone();
+
+    // (0) rendezvous (first: every worker starts here, so a deadlock between concurrent calls is met inside these cases): N threads run the same call and meet at one hook site inside it, so that all N are inside the same
+    // region of the library at the same moment (admission limits, pools, per-call slots: N = 16, 17, 33, ...)
+    let name = "rendezvous";
+    if ctx.engine_on(name) {
+        s.set_sched_hook(Some(hook));
+        let ns: &[usize] = if ctx.quick() { &[16, 17] } else { &[2, 3, 8, 16, 17, 32, 33, 64] };
+        let mut idx = 0u64;
+        for id in [0usize, 1, 2, 3, 5, 6, 7, 11] {
+            TW_SEEN.with(|v| *v.borrow_mut() = Some(Vec::new()));
+            let _ = call(s, id, &inp);
+            let sites: Vec<u32> = TW_SEEN.with(|v| v.borrow_mut().take().unwrap_or_default());
+            for site in sites {
+                if site >= 100 {
+                    continue;
+                }
+                for &n in ns {
+                    let i = idx;
+                    idx += 1;
+                    if ctx.sel.mine(i) {
+                        count(ctx, name, st, i);
+                    }
+                    if !ctx.take(name, i) {
+                        continue;
+                    }
+                    st.sample(name, || format!("#{} {} threads in {} meet at hook site {}", i, n, CALL_NAMES[id], site));
+                    ctx.begin(name, i, 60_000);
+                    let group = std::sync::Arc::new(Rendezvous::new(n));
+                    let inp_ref = &inp;
+                    let res: Vec<u64> = std::thread::scope(|sc| {
+                        let hs: Vec<_> = (0..n)
+                            .map(|_| {
+                                let g = group.clone();
+                                sc.spawn(move || {
+                                    RV.with(|r| *r.borrow_mut() = Some((site, g)));
+                                    let d = call(s, id, inp_ref);
+                                    RV.with(|r| *r.borrow_mut() = None);
+                                    d
+                                })
+                            })
+                            .collect();
+                        hs.into_iter().map(|h| h.join().unwrap_or(0)).collect()
+                    });
+                    ctx.end();
+                    let bad = res.iter().filter(|d| **d != seq[id]).count();
+                    if bad > 0 {
+                        st.violation(ctx.viol(name, i, "concurrent-result-differs", None,
+                            format!("{} of {} threads that ran {} and met at hook site {} returned a result different from the sequential one", bad, n, CALL_NAMES[id], site), &[]));
+                    } else if group.complete.load(std::sync::atomic::Ordering::SeqCst) {
+                        st.outcome(name, "all-met-and-agree");
+                    } else {
+                        st.outcome(name, "agree(rendezvous-incomplete-after-3s)");
+                    }
+                }
+            }
+        }
+        let e = st.eng(name);
+        e.bound = format!("8 calls x every hook site the call reaches x N in {:?} threads that all wait for each other at that site (3 s cap), then run on freely; results compared with the sequential digest; a deadlock is a hang", ns);
+        e.exhaustive = true;
+    }
 
     // (1) histspace: all call sequences of length <= 3
     let name = "histspace";
@@ -967,66 +1032,6 @@ pub fn run_c14(ctx: &Ctx, st: &mut Local) {
         let capped = e.notes.iter().any(|n| n == "cap hit");
         e.bound = format!("8 thread configurations (2 threads x 2 calls, 3 threads x 1 call; shared and private input buffers) x every schedule with at most {} preemptions at the library's hook points and at every call into the harness Read/Write objects", bound);
         e.exhaustive = !capped;
-    }
-
-    // (3a) rendezvous: N threads run the same call and meet at one hook site inside it, so that all N are inside the same
-    // region of the library at the same moment (admission limits, pools, per-call slots: N = 16, 17, 33, ...)
-    let name = "rendezvous";
-    if ctx.engine_on(name) {
-        s.set_sched_hook(Some(hook));
-        let ns: &[usize] = if ctx.quick() { &[16, 17] } else { &[2, 3, 8, 16, 17, 32, 33, 64] };
-        let mut idx = 0u64;
-        for id in [0usize, 1, 2, 3, 5, 6, 7, 11] {
-            TW_SEEN.with(|v| *v.borrow_mut() = Some(Vec::new()));
-            let _ = call(s, id, &inp);
-            let sites: Vec<u32> = TW_SEEN.with(|v| v.borrow_mut().take().unwrap_or_default());
-            for site in sites {
-                if site >= 100 {
-                    continue;
-                }
-                for &n in ns {
-                    let i = idx;
-                    idx += 1;
-                    if ctx.sel.mine(i) {
-                        count(ctx, name, st, i);
-                    }
-                    if !ctx.take(name, i) {
-                        continue;
-                    }
-                    st.sample(name, || format!("#{} {} threads in {} meet at hook site {}", i, n, CALL_NAMES[id], site));
-                    ctx.begin(name, i, 60_000);
-                    let group = std::sync::Arc::new(Rendezvous::new(n));
-                    let inp_ref = &inp;
-                    let res: Vec<u64> = std::thread::scope(|sc| {
-                        let hs: Vec<_> = (0..n)
-                            .map(|_| {
-                                let g = group.clone();
-                                sc.spawn(move || {
-                                    RV.with(|r| *r.borrow_mut() = Some((site, g)));
-                                    let d = call(s, id, inp_ref);
-                                    RV.with(|r| *r.borrow_mut() = None);
-                                    d
-                                })
-                            })
-                            .collect();
-                        hs.into_iter().map(|h| h.join().unwrap_or(0)).collect()
-                    });
-                    ctx.end();
-                    let bad = res.iter().filter(|d| **d != seq[id]).count();
-                    if bad > 0 {
-                        st.violation(ctx.viol(name, i, "concurrent-result-differs", None,
-                            format!("{} of {} threads that ran {} and met at hook site {} returned a result different from the sequential one", bad, n, CALL_NAMES[id], site), &[]));
-                    } else if group.complete.load(std::sync::atomic::Ordering::SeqCst) {
-                        st.outcome(name, "all-met-and-agree");
-                    } else {
-                        st.outcome(name, "agree(rendezvous-incomplete-after-3s)");
-                    }
-                }
-            }
-        }
-        let e = st.eng(name);
-        e.bound = format!("8 calls x every hook site the call reaches x N in {:?} threads that all wait for each other at that site (3 s cap), then run on freely; results compared with the sequential digest; a deadlock is a hang", ns);
-        e.exhaustive = true;
     }
 
     // (3b) argspace: the same argument bytes at every address alignment (a result may depend on the bytes of an
